@@ -62,15 +62,19 @@ def check(repo: Repo, run: Run) -> None:
     other_yields = [y for y in yields if y not in ev_yields]
 
     # ------------------------------------------------------------------ R1
-    ok = len(ev_yields) == 1 and len(ev_yields[0].loops) == 2
+    from .. import streams
+    ok = len(ev_yields) == 1 and len(ev_yields[0].loops) >= 2
     run.ob("R1", MOD, "KdBufParser.parse_v3", "one event yield: from_kd_buf(<raw 64-byte read>) inside chunk/record loops", ok,
            f"parse_v3 has {len(ev_yields)} yields of from_kd_buf(read({ks})) (expected one, inside the record loop of the chunk loop)",
            line=fn.lineno)
     if not ok:
         return
     ey = ev_yields[0]
-    outer = rec.loops[ey.loops[0]]
-    inner = rec.loops[ey.loops[1]]
+    inner = rec.loops[ey.loops[-1]]
+    outer_ids = [lid for lid in ey.loops[:-1] if rec.loops[lid].kind == "while"]
+    if not outer_ids:
+        raise AnalysisError("parse_v3: the chunk loop enclosing the record loop was not found")
+    outer = rec.loops[outer_ids[-1]]
     size_t = T("call", (T("global", ("construct.Int64ul.parse_stream",)), (reader,), ()))
     want_iter = T("call", (T("builtin", ("range",)), (T("bin", ("//", size_t, const(ks))),), ()))
     run.ob("R1", MOD, "KdBufParser.parse_v3", "record loop runs chunk_size // KEVENT_SIZE times", inner.iter == want_iter,
@@ -78,7 +82,7 @@ def check(repo: Repo, run: Run) -> None:
            f"the record loop iterates over {sym.pretty(inner.iter)[:100]} instead of range(<parsed chunk size> // {ks}): events of a "
            f"chunk are dropped or bytes of the next section are decoded as events",
            facts={"iter": sym.pretty(inner.iter)[:120]}, line=inner.lineno)
-    inner_pc = ey.pc
+    inner_pc = [c for c in ey.pc if c not in streams.loop_test_conditions(rec, ey.loops)]
     run.ob("R1", MOD, "KdBufParser.parse_v3", "every record of a chunk is yielded", not inner_pc,
            f"the event yield depends on {[sym.pretty(c)[:50] for c, _ in inner_pc]}: some records are not reported",
            line=ey.lineno)
@@ -107,13 +111,24 @@ def check(repo: Repo, run: Run) -> None:
                 okx = True
             if atom == T("cmp", ("==", const(more), rd)) and eff is False:
                 okx = True
-    other_exits = [e for e in outer.exits if e[0] in ("break", "return") and not okx]
     n_break = sum(1 for e in outer.exits if e[0] in ("break", "return"))
-    run.ob("R1", MOD, "KdBufParser.parse_v3", "chunk loop continues iff the next 8 bytes are MORE_EVENTS", okx and n_break == 1,
-           "" if okx and n_break == 1 else
+    form_break = okx and n_break == 1 and outer.test is not None and sym.truth(outer.test) is True
+    # flag form: `more = True; while more: ...; more = read(8) == MORE_EVENTS`
+    form_flag = False
+    if outer.test is not None and n_break == 0:
+        atom, apol = render.norm_bool(sym.resolve_widens(rec, outer.test))
+        if atom.op == "widen" and apol:
+            contribs = list(atom.a[2])
+            eq = [c for c in contribs if render.norm_bool(c) in ((T("cmp", ("==", rd, const(more))), True),
+                                                                 (T("cmp", ("==", const(more), rd)), True))]
+            rest = [c for c in contribs if c not in eq]
+            form_flag = len(eq) == 1 and all(sym.truth(c) is True for c in rest)
+    run.ob("R1", MOD, "KdBufParser.parse_v3", "chunk loop continues iff the next 8 bytes are MORE_EVENTS", form_break or form_flag,
+           "" if form_break or form_flag else
            "the chunk loop is not left exactly when read(8) differs from TRACEV3_MORE_EVENTS: later chunks are skipped or the "
-           "loop runs past the last chunk", facts={"exits": [(e[0], [sym.pretty(c)[:60] for c, _ in e[1]]) for e in outer.exits]},
-           line=outer.lineno)
+           "loop runs past the last chunk",
+           facts={"exits": [(e[0], [sym.pretty(c)[:60] for c, _ in e[1]]) for e in outer.exits],
+                  "test": sym.pretty(outer.test)[:100] if outer.test is not None else None}, line=outer.lineno)
 
     # ------------------------------------------------------------------ R7 the tag scanner is an exact sliding window
     su = repo.function("kd_buf_parser", "seek_until")
@@ -225,10 +240,24 @@ def check(repo: Repo, run: Run) -> None:
         run.ob("R3", MOD, "KdBufParser.parse_v3", f"{name}: payload is this block's data", okp,
                f"the value stored for {name} is not derived from the block's own payload", nontrivial=False)
         if want_target in ACCUMULATING:
-            acc = all((l["kind"] == "mut-call" and l["key"] in ("extend", "update", "append")) or
-                      (l["kind"] == "attr-store" and l["aug"] == "+") for l in lands)
-            has_ext = any((l["kind"] == "mut-call" and l["key"] == "extend") or (l["kind"] == "attr-store" and l["aug"] == "+")
-                          for l in lands)
+            def adds_to_self(l):
+                """attr-store whose value is <current value of the same attribute> + something"""
+                if l["kind"] != "attr-store":
+                    return False
+                if l["aug"] == "+":
+                    return True
+                v = l["value"]
+                if v is not None and v.op == "bin" and v.a[0] == "+":
+                    cur = v.a[1]
+                    while cur.op in ("widen",):
+                        cur = cur.a[2][-1] if cur.a[2] else cur
+                        if cur.op != "widen":
+                            break
+                    names = {x.a[1] for x in sym.walk(v.a[1]) if x.op == "attr" and x.a[0] == SELF}
+                    return want_target in names or (v.a[1].op == "widen" and v.a[1].a[0] in ("heap", want_target))
+                return False
+            acc = all((l["kind"] == "mut-call" and l["key"] in ("extend", "update", "append")) or adds_to_self(l) for l in lands)
+            has_ext = any((l["kind"] == "mut-call" and l["key"] == "extend") or adds_to_self(l) for l in lands)
             ok_upd = True
             for l in lands:
                 if l["kind"] == "mut-call" and l["key"] == "update":
